@@ -1543,7 +1543,8 @@ class Mps(MatrixProduct):
     def evolve_exact(self, h_mpo, evolve_dt, space):
         MPOprop = Mpo.exact_propagator(self.model, -1j * evolve_dt, space, -h_mpo.offset)
         new_mps = MPOprop.apply(self, canonicalise=True)
-        self.coeff *= np.exp(-1j * h_mpo.offset * evolve_dt)
+        # the phase of the energy offset belongs to the propagated state, not to the input
+        new_mps.coeff *= np.exp(-1j * h_mpo.offset * evolve_dt)
         return new_mps
 
     @property
